@@ -173,8 +173,11 @@ func ruleNumZeroSign(c *Ctx) []Obligation {
 		return append(sibs, ok(R, con, c.Pos(less.Pos()), fmt.Sprintf("Less clears the sign of a zero operand before its %d sign reads; ParseInt does not record the sign of a zero", reads)))
 	case lessOK:
 		return append(sibs, ok(R, con, c.Pos(less.Pos()), fmt.Sprintf("Less clears the sign of a zero operand before its %d sign reads", reads)))
-	case parseOK:
+	case parseOK && len(cleared) == 0:
 		return append(sibs, ok(R, con, c.Pos(parse.Pos()), "ParseInt does not record the sign of a zero (the only producer of a Number from a signed integer text; addQuantum: NUM.NEGZERO)"))
+	case parseOK:
+		// Less does clear the sign of a zero, but reads a sign before it has: the clearing is in the wrong place
+		return append(sibs, bad(R, con, c.Pos(less.Pos()), "Less clears the sign of a zero operand only after it has read a sign flag ("+why+"): for a negative zero — FromFloat of a tiny negative float, arithmetic, a literal — Less(-0, 0) holds and Equal(0, -0) does not, whatever ParseInt does"))
 	}
 	return append(sibs, bad(R, con, c.Pos(less.Pos()), "neither the ordering nor the integer parser neutralises the sign of a zero: range \"-0..10\" is refused on an unsigned type, \"0..-0\" is out of order ("+why+")"))
 }
